@@ -857,6 +857,9 @@ pub fn run(ctx: Arc<Ctx>) {
 				}
 			}
 		}
+		// two zero-length tiles (a source may hold them; the stream stage must pass them like any other tile)
+		base.insert((3, 0, 0), vec![]);
+		base.insert((3, 5, 0), vec![]);
 		let mut cbad: Option<String> = None;
 		let mut cn = 0u64;
 		for flags in 0..4u8 {
@@ -882,7 +885,7 @@ pub fn run(ctx: Arc<Ctx>) {
 						y = 7 - y;
 					}
 					let plain = crate::codec::decode_with(crate::containers::comp_id(outc), b.as_slice()).unwrap_or_default();
-					ok &= plain == spell(&(3, x, y));
+					ok &= Some(&plain) == base.get(&(3, x, y));
 				}
 				if !ok && cbad.is_none() {
 					cbad = Some(format!("flip_y={} swap_xy={} target={target:?} force={force}", flags & 1 != 0, flags & 2 != 0));
